@@ -84,7 +84,7 @@ theorem processMessage_below (o : Opts) (s : St) (m : Msg) (hb : Below s) : Belo
   repeat' split
   all_goals first | exact hb | exact maybeKeep_below _ _ _ _ hb
 
-theorem processInner_below (o : Opts) (base : Int) (codec : Nat) : ∀ (ms : List Msg) (s : St), Below s → Below (processInner o base codec s ms) := by
+theorem processInner_below (o : Opts) (base : Int) (codec : Nat) (lat : Option Int) : ∀ (ms : List Msg) (s : St), Below s → Below (processInner o base codec lat s ms) := by
   intro ms
   induction ms with
   | nil => intro s hb; simpa [processInner] using hb
@@ -92,7 +92,7 @@ theorem processInner_below (o : Opts) (base : Int) (codec : Nat) : ∀ (ms : Lis
     intro s hb
     unfold processInner
     simp only
-    have h1 := processMessage_below o s { m with offset := m.offset + base, attrs := m.attrs ||| codec } hb
+    have h1 := processMessage_below o s (innerSeen base codec lat m) hb
     split
     · exact ih _ h1
     · exact h1
@@ -118,9 +118,9 @@ theorem processOuter_below (o : Opts) (s s' : St) (m : Msg) (inner : Inner) (h :
         · simp at h
         · split at h
           · cases h; exact hs1
-          · cases h; exact processInner_below _ _ _ _ _ hs1
-      · cases h; exact processInner_below _ _ _ _ _ hs1
-    · cases h; exact processInner_below _ _ _ _ _ hs1
+          · cases h; exact processInner_below _ _ _ _ _ _ hs1
+      · cases h; exact processInner_below _ _ _ _ _ _ hs1
+    · cases h; exact processInner_below _ _ _ _ _ _ hs1
 
 theorem stepItem_below (o : Opts) (s s' : St) (it : Item) (h : stepItem o s it = some s') (hb : Below s) : Below s' := by
   cases it with
